@@ -465,7 +465,6 @@ func gen(stream string, seed uint64, n int, outp string) {
 	root := wire.NewRng(seed ^ 0xC15)
 	for c := 0; c < n; c++ {
 		r := root.Fork()
-		out.Line("case", strconv.Itoa(c), stream)
 		g := &genState{r: r, out: out, pods: map[string]*gPod{}, slices: map[string]*gSlice{}, svcs: map[string]*gSvc{},
 			nodes: map[string]*gNode{}, ports: map[string][]string{}, nss: []string{"n1"}, nsObj: map[string]string{},
 			portsSet: map[string]bool{}, mcs: map[string]bool{}}
@@ -473,9 +472,11 @@ func gen(stream string, seed uint64, n int, outp string) {
 			g.nss = []string{"n1", "n1", "n2"}
 		}
 		if r.Chance(1, 3) {
+			out.Line("case", strconv.Itoa(c), stream, "sim") // a simulated well-behaved cluster history
 			g.simCase()
 			continue
 		}
+		out.Line("case", strconv.Itoa(c), stream)
 		g.wide = r.Chance(1, 3)
 		g.noHold = r.Chance(3, 5) // most histories are handled write by write (the class of the theorems)
 		withNodes := r.Chance(1, 3)
